@@ -1181,8 +1181,11 @@ class App:
             try:
                 err_handler(req, resp, ex, params)
             except HTTPStatus as status:
+                # NOTE: Discard whatever the handler itself had set so far.
+                resp.text = resp.data = resp.media = None
                 self._compose_status_response(req, resp, status)
             except HTTPError as error:
+                resp.text = resp.data = resp.media = None
                 self._compose_error_response(req, resp, error)
 
             return True
